@@ -1276,7 +1276,8 @@ class Delay(Function):
     def term(self, time="t"):
         delayed_time = "{} - {}".format(str(time),
                                         self.delay_duration.term(str(self.model.starttime)))
-        return "({} if {}>={} else {})".format(
+        # "the delayed time is not before the start time", tolerant to float error (0.7 - 0.2 is just below 0.5)
+        return "({} if {}>={}-1e-9 else {})".format(
             self.input_function.term(delayed_time),
             delayed_time,
             str(self.model.starttime),
